@@ -9,6 +9,7 @@ import KmipModel.Discover
 import KmipModel.Accept
 import KmipModel.Shutdown
 import KmipModel.Client
+import KmipModel.Stream
 /-
   kvdriver: one request per input line, one reply per output line.  Runs the executable model and the
   executable specifications on the inputs the Go harness also gives to the real code.
@@ -214,6 +215,15 @@ def step (line : String) : String :=
     match fromHex hex with
     | some bs => clientSend 0x1E bs true
     | none => "bad-op"
+  -- stream T1,T2,… HEX: successive Decode calls on one decoder, one target type per call; then one more call of the last type
+  | ["stream", tys, hex] =>
+    match (tys.splitOn ",").mapM findSD, fromHex hex with
+    | some sds, some bs =>
+      let (vs, e, d) := decodeStream sds ⟨bs, .eof, 0⟩
+      let shown := vs.map fun (v, n) => s!"{n} " ++ showVal v
+      let fin := match e with | none => "more" | some .eof => "eof" | some .other => "err"
+      s!"ok {d.win.length} {fin} " ++ " ; ".intercalate shown
+    | _, _ => "bad-op"
   | ["c18"] => c18Report
   | ["c19"] => c19Report
   | _ => "bad-op"
